@@ -185,7 +185,7 @@ func runC18(r *Report) {
 		}
 		for _, st := range starts {
 			hits := WalkFrom(st, nil, func(in ssa.Instruction) int {
-				if isRec("RecordFailure")(in) {
+				if OrDeferred(isRec("RecordFailure"))(in) {
 					return Stop
 				}
 				if _, ok := in.(*ssa.Return); ok {
@@ -210,7 +210,7 @@ func runC18(r *Report) {
 				continue
 			}
 			skipped := WalkFrom(f.Blocks[0], nil, func(in ssa.Instruction) int {
-				if isRec("RecordSuccess")(in) {
+				if OrDeferred(isRec("RecordSuccess"))(in) {
 					return Stop
 				}
 				if in == ssa.Instruction(ret) {
